@@ -97,7 +97,7 @@ Section PayProofProofs.
     intros Hl Hi H. unfold Proto.finalize_tx in H. rewrite Hl in H.
     destruct (check_ttl pk esig w r); try (inversion H; discriminate).
     destruct (sl_state r); try (inversion H; discriminate); [reflexivity|].
-    rewrite Hi in H. inversion H; discriminate.
+    rewrite Hi in H. destruct (cx_late c); inversion H; discriminate.
   Qed.
 
   Theorem finalize_requires_proof (w : wallet) (r : slate) (c : ctxrec) i w' t :
